@@ -509,6 +509,10 @@ def _m_ifsplit(mod):
             if isinstance(n, ast.Assign) and norm(n.targets[0]) == "conditions":
                 n.value = ast.parse("all_expr[1:-1:2]", mode="eval").body
                 return True
+            # the engine's form: the temporaries are folded into the constructor call
+            if isinstance(n, ast.keyword) and n.arg == "conditions":
+                n.value = ast.parse("all_expr[1:-1:2]", mode="eval").body
+                return True
         return False
 
     return mod if replace_in_func(mod, "ASTListener.exitExpression_if", edit) else None
